@@ -1,7 +1,7 @@
 """Stage-level conformance (binding C): recorded hook events -> PipelineTrace events."""
 from . import common
 
-MODELLED = set(" -~|:!+.',`_=/\\()><^vV*oOX’")
+MODELLED = set(" -~|:!+.',`_=/\\()><^vV*oOX#’")
 
 
 class Inexact(Exception):
@@ -28,7 +28,9 @@ def frag(fs):
     if k == "arc":
         return {"k": "A", "s": pt(f["s"]), "e": pt(f["e"]), "r": L8(f["r"]), "sw": f["sweep"], "mj": f["major"], "cells": cells}
     if k == "polygon":
-        return {"k": "P", "pts": [pt(p) for p in f["pts"]], "cells": cells}
+        import math
+        # (to the lattice unit below, as Glyphs.tla records the filled box of '#')
+        return {"k": "P", "pts": [[int(math.floor(p[0] * 8 + 1e-6)), int(math.floor(p[1] * 8 + 1e-6))] for p in f["pts"]], "cells": cells}
     if k == "circle":
         return {"k": "C", "c": pt(f["c"]), "r": L8(f["r"]), "f": f["f"], "cells": cells}
     if k == "mline":
@@ -77,7 +79,8 @@ def tup(f):
     if k == "circle":
         return ["circle", n(f["c"][0]), n(f["c"][1]), n(f["r"]), f["f"]]
     if k == "polygon":
-        return ["polygon"] + [n(v) for p in f["pts"] for v in p]
+        import math
+        return ["polygon"] + [int(math.floor(v + 1e-6)) for p in f["pts"] for v in p]
     if k == "rect":
         return ["rect", n(f["s"][0]), n(f["s"][1]), n(f["e"][0]) - n(f["s"][0]), n(f["e"][1]) - n(f["s"][1]), n(f["r"]), f["b"], f["f"]]
     if k == "text":
